@@ -100,7 +100,8 @@ Definition ifs_repr (l : list ifmeta) : bool :=
 (** RPC path messages whose value is representable: non-negative expiration, link types that
     survive the [as u8] of [LinkType::from_i32] *)
 Definition rpath_canonical (r : rpath) : bool :=
-  match rp_exp r with Some (s, _) => (0 <=? s)%Z | None => true end
+  match rp_exp r with Some (s, _) => ((0 <=? s) && (s <=? 9223372036854775807))%Z | None => true end
+  && forallb (fun d => (fst d <=? 9223372036854775807)%Z) (rp_lat r)
   && forallb (fun z => lt_repr (linktype_of_i32 z)) (rp_lt r)
   && forallb (fun c => c <=? 4294967295) (rp_ih r).
 
